@@ -23,7 +23,8 @@ from vf import common, outcome, sched
 RULE = (
     "2-4 threads, each creating its own Environment (runner class per thread, mixed included), compiling its own program from a pool using ?:, ||, macros and "
     "identifier lookups, evaluating it 2-4 times with its own (thread-specific) bindings; schedules = up to 3 (quick) / 5 (thorough) preemptions at generated "
-    "line-step indexes with generated targets; thorough: every single-preemption point for fixed pairs, and a free-running stress (switch interval 1 us). "
+    "line-step indexes with generated targets; double preemptions (A suspended inside a state-touching function, B run into one, A finishes, B continues) for fixed pairs incl. deeply "
+    "nested programs; every run starts from the host's default recursion limit; thorough: every single-preemption point for fixed pairs, and a free-running stress (switch interval 1 us). "
     "non-trivial = at least one preemption took effect while the preempted thread was inside the library and another thread then ran library lines. "
     "distinct by (thread programs, schedule)."
 )
@@ -48,7 +49,26 @@ PROGRAMS = [
     "timestamp('2009-02-13T23:31:30Z').getHours('+01:00') + x",
     "duration('90s') + duration('1h') > duration('1m') ? x : y",
     "int(string(x)) + size(string(y))",
+    # deeply nested: needs more Python frames than the interpreter's default recursion limit allows (the library raises the limit itself)
+    "(" * 45 + "x + y" + ")" * 45,
+    "[" * 30 + "x" + "]" * 30 + " == " + "[" * 30 + "y" + "]" * 30,
 ]
+DEEP = (19, 20)
+HOST_RECURSION_LIMIT = 1000  # CPython's default: what a host application that never touched it has
+
+
+class host_limit:
+    """Every scheduled / stand-alone / stress run starts from the host's default recursion limit (the check's own process runs with a higher one),
+    so that anything the library does to this process-wide setting happens inside the run, where the scheduler can interleave it."""
+
+    def __enter__(self):
+        self.previous = sys.getrecursionlimit()
+        sys.setrecursionlimit(HOST_RECURSION_LIMIT)
+
+    def __exit__(self, *a):
+        sys.setrecursionlimit(self.previous)
+        return False
+
 RUNNERS = {"I": celpy.InterpretedRunner, "C": celpy.CompiledRunner}
 
 
@@ -87,7 +107,8 @@ HOT_FUNCTIONS = {"evaluate", "transpile", "program", "parse", "result"}
 def alone(thread: int, runner: str, prog: int, nevals: int) -> Tuple[Any, int]:
     key = (thread, runner, prog, nevals)
     if key not in _ALONE:
-        _ALONE[key] = sched.run_alone(make_body(thread, runner, prog, nevals))
+        with host_limit():
+            _ALONE[key] = sched.run_alone(make_body(thread, runner, prog, nevals))
         names = getattr(sched.run_alone, "last_step_names", [])
         # steps (1-based) at which this thread, running alone, is inside one of the functions that touch process-wide state
         _HOT[key] = [i + 1 for i, nm in enumerate(names) if nm in HOT_FUNCTIONS or nm.startswith(("function_", "macro_", "tz_", "get"))]
@@ -112,7 +133,8 @@ def check_schedule(run: common.Run, threads: List[Tuple[str, int, int]], schedul
     sch.sort()
     s = sched.Scheduler([make_body(i, r, p, k) for i, (r, p, k) in enumerate(threads)], sch)
     try:
-        got = s.run()
+        with host_limit():
+            got = s.run()
     except sched.Stall as ex:
         raise common.HarnessError(f"scheduler stalled: {ex}")
     run.tick()
@@ -144,7 +166,8 @@ def stress(run: common.Run, iterations: int, report) -> None:
     try:
         for it in range(iterations):
             threads = [("C", it % len(PROGRAMS), 3), ("C", (it * 5 + 1) % len(PROGRAMS), 3), ("I", (it * 3 + 2) % len(PROGRAMS), 3), ("C", (it * 7 + 3) % len(PROGRAMS), 3)]
-            expected = [make_body(i, r, p, k)() for i, (r, p, k) in enumerate(threads)]
+            with host_limit():
+                expected = [_in_thread(make_body(i, r, p, k)) for i, (r, p, k) in enumerate(threads)]
             results: List[Any] = [None] * len(threads)
             barrier = threading.Barrier(len(threads))
 
@@ -153,10 +176,11 @@ def stress(run: common.Run, iterations: int, report) -> None:
                 results[i] = make_body(i, r, p, k)()
 
             ts = [threading.Thread(target=worker, args=(i, r, p, k)) for i, (r, p, k) in enumerate(threads)]
-            for t in ts:
-                t.start()
-            for t in ts:
-                t.join(120)
+            with host_limit():
+                for t in ts:
+                    t.start()
+                for t in ts:
+                    t.join(120)
             run.tick()
             run.event("stress-iteration")
             for i in range(len(threads)):
@@ -165,6 +189,39 @@ def stress(run: common.Run, iterations: int, report) -> None:
                            f"free-running: thread {i} returned {str(results[i])[:120]} but alone {str(expected[i])[:120]}")
     finally:
         sys.setswitchinterval(old)
+
+
+def _in_thread(body) -> Any:
+    """Run a body alone in a thread of its own (same stack situation as the concurrent run)."""
+    box: List[Any] = [None]
+    t = threading.Thread(target=lambda: box.__setitem__(0, body()))
+    t.start()
+    t.join(120)
+    return box[0]
+
+
+def double_preemption(run: common.Run, pairs: List[Tuple[Tuple, Tuple]], report, per_pair: int, offset: int = 0) -> int:
+    """A is preempted inside a function that touches process-wide state, B runs until it is inside such a function too, A resumes and finishes, then B
+    continues: the schedule that exposes save/restore of a process-wide setting. B's k-th line alone is global step s1 + k after a switch at s1."""
+    n = 0
+    for a, b in pairs:
+        alone(0, *a)
+        alone(1, *b)
+        hot_a, hot_b = _HOT.get((0,) + tuple(a), []), _HOT.get((1,) + tuple(b), [])
+        if not hot_a or not hot_b:
+            continue
+        m = max(1, int(per_pair ** 0.5))
+        for i in range(m):
+            s1 = hot_a[(offset * 31 + i * max(1, len(hot_a) // m)) % len(hot_a)]
+            for j in range(m):
+                k = hot_b[(offset * 17 + j * max(1, len(hot_b) // m)) % len(hot_b)]
+                check_schedule(run, [a, b], [(s1, 1), (s1 + k, 0)], report, fractions=False)
+                run.event("double-preemption-schedule")
+                n += 1
+    return n
+
+
+DOUBLE_PAIRS = [(("C", 3, 2), ("I", 19, 2)), (("I", 0, 2), ("C", 19, 2)), (("I", 3, 2), ("I", 20, 2)), (("C", 5, 2), ("C", 12, 2)), (("I", 17, 2), ("C", 16, 2))]
 
 
 def replay(run: common.Run, case: dict, key: str = ""):
@@ -211,6 +268,7 @@ def _shard(run: common.Run) -> None:
     shard = (run.seed % 1000 - 1) % 16
     n = exhaustive_single_preemption(run, PAIRS, run.fail, shard=(shard, 16))
     run.extra["exhaustive_single_preemption_runs"] = n
+    run.extra["double_preemption_runs"] = double_preemption(run, DOUBLE_PAIRS, run.fail, 100, offset=run.seed)
     campaign(run)
 
 
@@ -230,6 +288,7 @@ def main(run: common.Run) -> None:
         # every 16th single-preemption point of the first two pairs, then generated schedules, then a short stress
         n = exhaustive_single_preemption(run, PAIRS[:2], run.fail, stride=8)
         run.extra["single_preemption_runs"] = n
+        run.extra["double_preemption_runs"] = double_preemption(run, DOUBLE_PAIRS, run.fail, 16, offset=run.seed)
         campaign(run)
         stress(run, 15, run.fail)
     else:
